@@ -631,3 +631,65 @@ def run(ctx) -> None:  # noqa: F811
                       "sibling setters of the same property disagree: " + "; ".join(
                           f"{f.qualname}: {_nt(st)}" for f, st, _ in items), key_detail="siblings")
     _inner_run_c03b(ctx)
+
+
+# ---- added: builder composition order (found on the tree: Probe with tilt and aberration distributions)
+_inner_run_c03c = run
+
+
+def run(ctx) -> None:  # noqa: F811
+    import ast as _ast
+
+    from ..model import dotted as _dotted, norm_text as _nt, walk_no_nested as _walk
+
+    ctx.rule("R-BUILDORDER", "a waves builder declares its ensemble axes in the order of its `ensemble_names` "
+             "(ensemble_shape, ensemble_axes_metadata, partitioning) and builds the array in _calculate_array by "
+             "starting from one ensemble's kernel and calling <builder>.<name>.apply(waves) for the others; every apply "
+             "prepends its axes, so the array axes are (last applied, ..., first applied, kernel): this sequence must "
+             "equal `ensemble_names`, otherwise member [i, j] of the built waves belongs to other parameter values "
+             "than its axes metadata say")
+    repo = ctx.repo
+    wmod = repo.modules["abtem.waves"]
+    n = 0
+    for c in wmod.classes.values():
+        calc = c.own_method("_calculate_array")
+        init = c.own_method("__init__")
+        if calc is None or init is None:
+            continue
+        names = None
+        for st in _ast.walk(init.node):
+            if isinstance(st, _ast.Call) and any(k.arg == "ensemble_names" for k in st.keywords):
+                v = next(k.value for k in st.keywords if k.arg == "ensemble_names")
+                if isinstance(v, _ast.Name):
+                    defs = [a.value for a in _ast.walk(init.node) if isinstance(a, _ast.Assign)
+                            and any(_dotted(t) == v.id for t in a.targets)]
+                    v = defs[0] if len(defs) == 1 else v
+                if isinstance(v, (_ast.Tuple, _ast.List)) and all(isinstance(e, _ast.Constant) for e in v.elts):
+                    names = [e.value for e in v.elts]
+        if names is None:
+            continue
+        b = calc.positional_params[0] if calc.positional_params else None
+        ctx.require(b is not None, f"{calc.qualname}: builder parameter not found")
+        seq = []  # (name, node) in statement order: the kernel first, then the applies
+        for node in _walk(calc.node):
+            if isinstance(node, _ast.Call) and isinstance(node.func, _ast.Attribute) and \
+                    node.func.attr in ("apply", "_evaluate_kernel", "_calculate_new_array") and \
+                    isinstance(node.func.value, _ast.Attribute) and _dotted(node.func.value.value) == b:
+                seq.append((node.func.value.attr, node.func.attr, node))
+        seq.sort(key=lambda t: (t[2].lineno, t[2].col_offset))
+        applied = [nm for nm, kind, _ in seq if kind == "apply"]
+        kernels = [nm for nm, kind, _ in seq if kind != "apply"]
+        if not applied and not kernels:
+            continue
+        n += 1
+        built = list(reversed(applied)) + kernels
+        declared = list(names)
+        ok = built == declared
+        ctx.check(ok, "R-BUILDORDER", f"{c.qualname}:array axes == ensemble_names", calc.where,
+                  f"array axes {tuple(built)} == ensemble_names",
+                  f"_calculate_array builds the axes in the order {tuple(built)} (kernel {kernels}, then apply "
+                  f"{applied}, each apply prepending its axes) but the builder declares ensemble_names {tuple(declared)}: "
+                  "with distributions on two of the swapped ensembles the built members are labelled with each "
+                  "other's parameter values", key_detail="buildorder")
+    ctx.require(n >= 2, f"R-BUILDORDER matched only {n} builders")
+    _inner_run_c03c(ctx)
